@@ -80,7 +80,7 @@ def hdp_case(draw):
 
 
 @st.composite
-def import_case(draw):
+def import_case(draw, nested=True):
     fmt = draw(st.sampled_from(["TEXT", "TEXT", "FP32", "FP64", "IN32", "IN16", "IN08"]))
     rank = draw(st.sampled_from([2, 2, 3]))
     dims = [draw(st.integers(2, 5)) for _ in range(3)]      # the tool requires at least 2 rows and 2 columns
@@ -89,8 +89,12 @@ def import_case(draw):
     out = None
     if fmt == "TEXT":
         out = draw(st.sampled_from([None, "FP32", "FP64", "INT32", "INT16", "INT8"]))
-    return {"family": "import", "fmt": fmt, "dims": dims, "outtype": out, "n": draw(st.booleans()),
+    case = {"family": "import", "fmt": fmt, "dims": dims, "outtype": out, "n": draw(st.booleans()),
             "seed": draw(st.integers(0, 10000))}
+    if nested and draw(st.integers(0, 2)) == 0:
+        # several input files of possibly different formats in one command
+        case["more"] = [draw(import_case(False)) for _ in range(draw(st.integers(1, 2)))]
+    return case
 
 
 @st.composite
@@ -360,79 +364,90 @@ FMT_CODE = {"FP32": 0x46503332, "FP64": 0x46503634, "IN32": 0x494e3332, "IN16": 
 
 
 def run_import(case, d, labels, excluded, known_keys):
-    fmt, dims, outtype = case["fmt"], case["dims"], case["outtype"]
-    npl, nr, nc = dims
-    rng = np.random.RandomState(case["seed"])
-    n = npl * nr * nc
-    isint = fmt.startswith("IN") or (fmt == "TEXT" and outtype in ("INT32", "INT16", "INT8"))
-    hi = 100 if (fmt == "IN08" or outtype == "INT8") else 2000
-    if isint:
-        data = rng.randint(-hi, hi + 1, size=n).astype(np.int64)
-        scales = [np.arange(1, k + 1, dtype=np.int64) * (i + 2) for i, k in enumerate(dims)]
-    else:
-        data = rng.randint(-8000, 8000, size=n) / 8.0
-        scales = [np.arange(1, k + 1) * (0.5 * (i + 1)) for i, k in enumerate(dims)]
-    mx, mn = data.max(), data.min()
-    inp = os.path.join(d, "in.dat")
-    if fmt == "TEXT":
-        with open(inp, "w") as f:
-            f.write("TEXT\n%d %d %d\n" % (npl, nr, nc))
-            f.write("%s %s\n" % (repr(float(mx)) if not isint else int(mx), repr(float(mn)) if not isint else int(mn)))
-            for i, s in enumerate(scales):
-                if i == 0 and npl == 1:
-                    continue
-                f.write(" ".join((str(int(x)) if isint else repr(float(x))) for x in s) + "\n")
-            f.write(" ".join((str(int(x)) if isint else repr(float(x))) for x in data) + "\n")
-    else:
-        dt = {"FP32": "f4", "FP64": "f8", "IN32": "i4", "IN16": "i2", "IN08": "i1"}[fmt]
-        with open(inp, "wb") as f:
-            f.write(fmt.encode() + struct.pack("=3i", npl, nr, nc))      # the designator is the 4 characters
-            f.write(np.array([mx, mn]).astype(dt).tobytes())
-            for i, s in enumerate(scales):
-                if i == 0 and npl == 1:
-                    continue
-                f.write(s.astype(dt).tobytes())
-            f.write(data.astype(dt).tobytes())
-    args = ["in.dat"]
-    if fmt == "TEXT" and outtype:
-        args += ["-t", outtype]
-    if fmt == "FP64" and case["n"]:
-        args += ["-n"]
+    # one command may name several input files (each followed by its own options): one dataset per input, in order
+    subs = [case] + list(case.get("more") or [])
+    args = []
+    wants = []
+    for k, sub in enumerate(subs):
+        fmt, dims, outtype = sub["fmt"], sub["dims"], sub.get("outtype")
+        npl, nr, nc = dims
+        rng = np.random.RandomState(sub["seed"])
+        n = npl * nr * nc
+        isint = fmt.startswith("IN") or (fmt == "TEXT" and outtype in ("INT32", "INT16", "INT8"))
+        hi = 100 if (fmt == "IN08" or outtype == "INT8") else 2000
+        if isint:
+            data = rng.randint(-hi, hi + 1, size=n).astype(np.int64)
+            scales = [np.arange(1, k_ + 1, dtype=np.int64) * (i + 2) for i, k_ in enumerate(dims)]
+        else:
+            data = rng.randint(-8000, 8000, size=n) / 8.0
+            scales = [np.arange(1, k_ + 1) * (0.5 * (i + 1)) for i, k_ in enumerate(dims)]
+        mx, mn = data.max(), data.min()
+        iname = "in.dat" if k == 0 else "in%d.dat" % k
+        inp = os.path.join(d, iname)
+        if fmt == "TEXT":
+            with open(inp, "w") as f:
+                f.write("TEXT\n%d %d %d\n" % (npl, nr, nc))
+                f.write("%s %s\n" % (repr(float(mx)) if not isint else int(mx), repr(float(mn)) if not isint else int(mn)))
+                for i, s_ in enumerate(scales):
+                    if i == 0 and npl == 1:
+                        continue
+                    f.write(" ".join((str(int(x)) if isint else repr(float(x))) for x in s_) + "\n")
+                f.write(" ".join((str(int(x)) if isint else repr(float(x))) for x in data) + "\n")
+        else:
+            dt = {"FP32": "f4", "FP64": "f8", "IN32": "i4", "IN16": "i2", "IN08": "i1"}[fmt]
+            with open(inp, "wb") as f:
+                f.write(fmt.encode() + struct.pack("=3i", npl, nr, nc))      # the designator is the 4 characters
+                f.write(np.array([mx, mn]).astype(dt).tobytes())
+                for i, s_ in enumerate(scales):
+                    if i == 0 and npl == 1:
+                        continue
+                    f.write(s_.astype(dt).tobytes())
+                f.write(data.astype(dt).tobytes())
+        args += [iname]
+        if fmt == "TEXT" and outtype:
+            args += ["-t", outtype]
+        if fmt == "FP64" and sub.get("n"):
+            args += ["-n"]
+        want_nt = {"FP32": 5, "FP64": 6, "INT32": 24, "INT16": 22, "INT8": 20}[outtype] if fmt == "TEXT" and outtype else \
+            {"TEXT": 5, "FP32": 5, "FP64": 6 if sub.get("n") else 5, "IN32": 24, "IN16": 22, "IN08": 20}[fmt]
+        want_dims = [nr, nc] if npl == 1 else [npl, nr, nc]
+        wants.append(dict(fmt=fmt, nt=want_nt, dims=want_dims, data=data, n=n,
+                          scales=[s_ for i, s_ in enumerate(scales) if not (i == 0 and npl == 1)]))
+        if npl > 1 or (fmt == "TEXT" and outtype) or fmt != "TEXT":
+            labels.add("import_nontrivial")
+        labels.add("import_" + fmt)
+    if len(subs) > 1:
+        labels.add("import_several_inputs")
     args += ["-o", "out.hdf"]
     rc, so, se = tool(d, "hdfimport", args)
     cmd = "hdfimport " + " ".join(args)
     if rc != 0 or not os.path.exists(os.path.join(d, "out.hdf")):
         raise Fail("hdfimport failed on a valid input", command=cmd, exit=rc, output=so[-500:], stderr=se[-500:],
                    case={k: v for k, v in case.items()})
-    desc = parse_desc(c18.describe(d, "out.hdf"))
-    if len(desc["sds"]) != 1:
-        raise Fail("hdfimport did not produce exactly one dataset", command=cmd, datasets=list(desc["sds"]))
-    (name, e), = desc["sds"].items()
-    want_nt = {"FP32": 5, "FP64": 6, "INT32": 24, "INT16": 22, "INT8": 20}[outtype] if fmt == "TEXT" and outtype else \
-        {"TEXT": 5, "FP32": 5, "FP64": 6 if case["n"] else 5, "IN32": 24, "IN16": 22, "IN08": 20}[fmt]
-    want_dims = [nr, nc] if npl == 1 else [npl, nr, nc]
-    if e["dims"] != want_dims or (e["nt"] & 0xfff) != want_nt:
-        raise Fail("the imported dataset has another shape or number type than the input", command=cmd, got=e["dims"],
-                   got_nt=e["nt"], want=want_dims, want_nt=want_nt)
-    got = np.frombuffer(bytes.fromhex(e["data"]), dtype=NT_DT[want_nt]).astype(np.float64)
-    if got.size != n or np.any(np.abs(got - data.astype(np.float64)) > 1e-6):
-        raise Fail("the imported dataset holds other values than the input", command=cmd, first=got[:6].tolist(),
-                   want=data[:6].tolist())
-    # dimension scales
     lines = c18.describe(d, "out.hdf")
-    sc = {}
+    ents = []       # datasets in file order (the tool gives every dataset the same name)
     for l in lines:
         f = l.split(" ")
-        if f[0] == "SDSDIM" and f[6] not in ("-", "NOSCALE"):
-            sc[int(f[2])] = np.frombuffer(bytes.fromhex(f[6]), dtype=NT_DT[int(f[5]) & 0xfff]).astype(np.float64)
-    wanted = [s for i, s in enumerate(scales) if not (i == 0 and npl == 1)]
-    for i, s in enumerate(wanted):
-        if i not in sc or sc[i].size != s.size or np.any(np.abs(sc[i] - s.astype(np.float64)) > 1e-6):
-            raise Fail("the imported dataset's dimension scale differs from the input", command=cmd, dimension=i,
-                       got=sc.get(i, np.array([])).tolist()[:6], want=s.tolist()[:6])
-    if npl > 1 or (fmt == "TEXT" and outtype) or fmt != "TEXT":
-        labels.add("import_nontrivial")
-    labels.add("import_" + fmt)
+        if f[0] == "SDS":
+            ents.append(dict(name=f[1], dims=[int(x) for x in f[3].split(",")] if f[3] != "-" else [], nt=int(f[4]),
+                             data=f[9] if f[8] == "0" else "", sc={}))
+        elif f[0] == "SDSDIM" and ents and f[6] not in ("-", "NOSCALE"):
+            ents[-1]["sc"][int(f[2])] = np.frombuffer(bytes.fromhex(f[6]), dtype=NT_DT[int(f[5]) & 0xfff]).astype(np.float64)
+    if len(ents) != len(subs):
+        raise Fail("hdfimport did not produce exactly one dataset per input", command=cmd, datasets=[e["name"] for e in ents])
+    for k, (e, w) in enumerate(zip(ents, wants)):
+        if e["dims"] != w["dims"] or (e["nt"] & 0xfff) != w["nt"]:
+            raise Fail("the imported dataset has another shape or number type than the input", command=cmd, got=e["dims"],
+                       got_nt=e["nt"], want=w["dims"], want_nt=w["nt"], dataset=k)
+        got = np.frombuffer(bytes.fromhex(e["data"]), dtype=NT_DT[w["nt"]]).astype(np.float64)
+        if got.size != w["n"] or np.any(np.abs(got - w["data"].astype(np.float64)) > 1e-6):
+            raise Fail("the imported dataset holds other values than the input", command=cmd, first=got[:6].tolist(),
+                       want=w["data"][:6].tolist(), dataset=k)
+        sc = e["sc"]
+        for i, s_ in enumerate(w["scales"]):
+            if i not in sc or sc[i].size != s_.size or np.any(np.abs(sc[i] - s_.astype(np.float64)) > 1e-6):
+                raise Fail("the imported dataset's dimension scale differs from the input", command=cmd, dimension=i,
+                           got=sc.get(i, np.array([])).tolist()[:6], want=s_.tolist()[:6], dataset=k)
 
 
 RUNNERS = {"hdiff": run_hdiff, "hdp": run_hdp, "import": run_import}
